@@ -5,7 +5,7 @@ TLC GraphTrace judges each orbit with GraphCanon!OrbitRej (agreement, idempotenc
 import json, os, time, concurrent.futures as cf
 import vlib
 
-CFGS = {"quick": ["q3", "q4"], "thorough": ["t3", "t4", "t5"]}
+CFGS = {"quick": ["q1", "q2", "q3", "q4"], "thorough": ["q1", "q2", "t3", "t4", "t5"]}
 NRANDOM = {"quick": 80, "thorough": 3000}
 CHUNK = 2500
 
